@@ -1799,6 +1799,79 @@ func genC04(ctx *hx.Ctx, emit func(hx.Case)) {
 			}
 		}
 	}
+	// 2d. headers that contain themselves (4c7d612): components.headers.H.content.<mt>.encoding.f.headers.X = $ref H,
+	// the variant through an extension target (#/x-h/H), a cycle of two headers, H used from a response; with
+	// violations in the header itself, in its media type, in its encoding object, next to the inner $ref, and under
+	// a few option lists
+	{
+		type edit struct {
+			name string
+			f    func(h map[string]any)
+		}
+		enc := func(h map[string]any) map[string]any {
+			return asMap(asMap(asMap(asMap(h["content"])["multipart/form-data"])["encoding"])["f"])
+		}
+		edits := []edit{
+			{"none", func(h map[string]any) {}},
+			{"header-extra-field", func(h map[string]any) { h["bogus"] = 1 }},
+			{"header-x-ext", func(h map[string]any) { h["x-ok"] = 1 }},
+			{"header-name", func(h map[string]any) { h["name"] = "X" }},
+			{"header-style-matrix", func(h map[string]any) { h["style"] = "matrix" }},
+			{"header-schema-too", func(h map[string]any) { h["schema"] = map[string]any{"type": "string"} }},
+			{"mediatype-extra-field", func(h map[string]any) { asMap(asMap(h["content"])["multipart/form-data"])["bogus"] = 1 }},
+			{"mediatype-schema-bad-default", func(h map[string]any) {
+				asMap(asMap(h["content"])["multipart/form-data"])["schema"] = map[string]any{"type": "integer", "default": "x"}
+			}},
+			{"encoding-style-matrix", func(h map[string]any) { enc(h)["style"] = "matrix" }},
+			{"encoding-extra-field", func(h map[string]any) { enc(h)["bogus"] = 1 }},
+			{"inner-ref-sibling", func(h map[string]any) { asMap(asMap(enc(h)["headers"])["X"])["bogus"] = 1 }},
+			{"inner-header-bad-key", func(h map[string]any) {
+				hs := asMap(enc(h)["headers"])
+				hs["bad key!"] = hs["X"]
+			}},
+			{"second-inline-header-named", func(h map[string]any) {
+				asMap(enc(h)["headers"])["Y"] = map[string]any{"name": "Y", "schema": map[string]any{"type": "string"}}
+			}},
+		}
+		hdr := func(ref string) map[string]any {
+			return map[string]any{"content": map[string]any{"multipart/form-data": map[string]any{
+				"schema":   map[string]any{"type": "object"},
+				"encoding": map[string]any{"f": map[string]any{"headers": map[string]any{"X": map[string]any{"$ref": ref}}}}}}}
+		}
+		lists := [][][]string{{}, {{"DisableExamplesValidation"}}, {{"DisableSchemaDefaultsValidation"}}, {{"AllowExtraSiblingFields", "bogus"}},
+			{{"ProhibitExtensionsWithRef"}, {"AllowExtraSiblingFields", "bogus"}}}
+		usePath := map[string]any{"/c": map[string]any{"get": map[string]any{"responses": map[string]any{"200": map[string]any{
+			"description": "d", "headers": map[string]any{"X-Use": map[string]any{"$ref": "#/components/headers/H"}}}}}}}
+		for vi, variant := range []string{"self", "extension-target", "two-cycle", "self-used-from-response"} {
+			for ei, e := range edits {
+				for li, l := range lists {
+					if !ctx.Thorough() && li > 0 && (vi+ei+li)%3 != 0 {
+						continue
+					}
+					d := map[string]any{"openapi": "3.0.3", "info": map[string]any{"title": "t", "version": "1"}, "paths": map[string]any{}}
+					switch variant {
+					case "self", "self-used-from-response":
+						h := hdr("#/components/headers/H")
+						e.f(h)
+						d["components"] = map[string]any{"headers": map[string]any{"H": h}}
+						if variant == "self-used-from-response" {
+							d["paths"] = deepCopy(usePath)
+						}
+					case "extension-target":
+						h := hdr("#/x-h/H")
+						e.f(h)
+						d["x-h"] = map[string]any{"H": h}
+						d["components"] = map[string]any{"headers": map[string]any{"K": map[string]any{"$ref": "#/x-h/H"}}}
+					case "two-cycle":
+						a, b := hdr("#/components/headers/B"), hdr("#/components/headers/A")
+						e.f(b)
+						d["components"] = map[string]any{"headers": map[string]any{"A": a, "B": b}}
+					}
+					emit(c04CaseL(d, nil, l, "cyclic-header:"+variant+":"+e.name))
+				}
+			}
+		}
+	}
 	// 3. seeded stream: 1–3 injections at random sites (re-walked after each), random options
 	r := ctx.Rng
 	count := 1200
